@@ -51,6 +51,12 @@ def single_violations(case, res, variant):
         out.append(Violation('HARNESS', o, o, res.get('detail', ''), case, variant))
     for u in res.get('ubsan', []):
         out.append(Violation('C11', 'UBSAN', u, 'undefined arithmetic: ' + u, case, variant))
+    if case.get('oracles', {}).get('api_errors'):
+        # EbErrorType: 0x80001xxx are errors, 0x7fffffff is EB_ErrorMax (error packet); 0x80002033 (empty queue) and 0x80002034 (fifo shutdown) are not errors
+        for x in res.get('history', []):
+            v = x[2] & 0xffffffff if isinstance(x[2], int) and x[2] != -9999 else 0
+            if x[1] in ('send', 'eos', 'get_packet', 'drain', 'get_recon', 'init', 'stream_header') and (0x80001000 <= v <= 0x80001fff or v == 0x7fffffff):
+                out.append(Violation('C11', 'ORACLE', 'api_error:' + x[1], 'API call %s returned error 0x%x during an accepted encode' % (x[1], v), case, variant)); break
     out += c03_oracle(case, res, variant)
     out += c18_oracle(case, res, variant)
     out += c19_oracle(case, res, variant)
